@@ -119,6 +119,68 @@ def drop_empty_classes(groups, xm, swbits):
     return [g for i, g in enumerate(groups) if i not in bad], len(bad)
 
 
+def fc_analysis(n):
+    """Token::analyzeFirstCharacter replayed on the generator's syntax tree.  returns (ret, lost):
+    ret in CONT / TERM / ANY ('.': any character, nothing added to the set) / FULL (the whole range was added);
+    lost = an ANY was discarded (a union that saw another branch first, or a closure), i.e. sub-class (a) of F33"""
+    k = n[0]
+    if k in ('chr', 'named'):
+        return 'TERM', False
+    if k == 'cls':
+        neg, items, sub = n[1]
+        return ('FULL' if neg and sub is None else 'TERM'), False
+    if k == 'dot':
+        return 'ANY', False
+    if k == 'eps':
+        return 'CONT', False
+    if k == 'grp':
+        return fc_analysis(n[1])
+    if k == 'cat':
+        lost = False
+        for c in n[1]:
+            r, l = fc_analysis(c)
+            lost |= l
+            if r != 'CONT':
+                return r, lost
+        return 'CONT', lost
+
+    def union(children):
+        lost, has_empty, ret = False, False, 'CONT'
+        for c in children:
+            ret, l = fc_analysis(c)
+            lost |= l
+            if ret in ('ANY', 'FULL'):
+                break
+            has_empty = True
+        if has_empty:
+            return 'CONT', lost or ret == 'ANY'
+        return ret, lost
+    if k == 'alt':
+        return union(n[1])
+    _, lo, hi, c, style = n
+    if style == '?':
+        return union([c, ('eps',)])
+    r, l = fc_analysis(c)
+    if style == '+':
+        if r != 'CONT':
+            return r, l
+        return 'CONT', l
+    return 'CONT', l or r == 'ANY'
+
+
+def char_at_unit(cps, u):
+    pos = 0
+    for c in cps:
+        if pos == u:
+            return c
+        pos += 2 if c >= 0x10000 else 1
+    return None
+
+
+def lit_ast(lit):
+    return ('cat', [('chr', c) for c in lit]) if len(lit) != 1 else ('chr', lit[0])
+
+
 def gen(ctx):
     """returns a list of groups; a group = dict(kind, lines=[...], meta...) evaluated by `evaluate`"""
     rng = ctx.rng
@@ -181,8 +243,52 @@ def gen(ctx):
                 mid = mid + mid
             subj.append(pre + mid + post)
         subj += [[], lit, lit + lit, lit[1:] + lit, lit[:-1] + lit]
+        xy = ('grp', ('alt', [('chr', x), ('chr', y)]))
+        fca = {"lit": lit_ast(lit), "lit(x|y)": ('cat', [lit_ast(lit), xy]), "(x|y)lit": ('cat', [xy, lit_ast(lit)]),
+               ".*lit": ('cat', [('rep', 0, None, ('dot',), '*'), lit_ast(lit)]),
+               "lit+": ('cat', [lit_ast(lit[:-1] or lit), ('rep', 1, None, ('chr', lit[-1]), '+')]),
+               "x?lit": ('cat', [('rep', 0, 1, ('chr', x), '?'), lit_ast(lit)])}[shape]
         groups.append({"kind": "xp-bm-" + shape, "pat": pat, "opts": "", "subj": subj, "expr": None, "deco": ["lit"],
-                       "plain": False, "ngroups": count_groups(pat), "lit": lit if shape == "lit" else None})
+                       "plain": False, "ngroups": count_groups(pat), "lit": lit if shape == "lit" else None,
+                       "fc_lost": fc_analysis(fca)[1]})
+    # first-character classes with members below and above U+0100 (BMP and supplementary), behind optional / starred
+    # prefixes that overlap them; subjects that must START on such members
+    HIGH = [0x436, 0x3A9, 0x3000, 0x4E2D, 0xFF, 0x100, 0x101]
+    SUPP = [0x10000, 0x1D11E]
+    for _ in range(800 if thorough else 45):
+        lo = rng.choice([0x61, 0x62, 0x64])
+        hi = lo + rng.choice([1, 2, 5])
+        items = [('r', lo, hi)] + [('c', c) for c in rng.sample(HIGH, rng.choice([1, 2, 3]))]
+        if rng.random() < 0.4:
+            items.append(('c', rng.choice(SUPP)))
+        if rng.random() < 0.3:
+            items.append(('c', 0x20))
+        rng.shuffle(items)
+        C = ('cls', (False, items, None))
+        kind = rng.choice(["opt", "star", "space", "optgrp"])
+        if kind == "opt":
+            pre = ('rep', 0, 1, ('chr', rng.randrange(lo, hi + 1)), '?')
+        elif kind == "star":
+            pre = ('rep', 0, None, ('cls', (False, [('r', 0x61, 0x66)], None)), '*')
+        elif kind == "space":
+            pre = ('rep', 0, None, ('named', 's'), '*')
+        else:
+            pre = ('rep', 0, 1, ('grp', ('alt', [('chr', lo), ('chr', rng.choice(HIGH))])), '?')
+        body = C if rng.random() < 0.6 else ('rep', 1, None, C, '+')
+        tail = rng.choice([[], [('chr', 0x7A)], [('chr', 0x21)]])
+        e = ('cat', [pre, body] + tail)
+        members = [it[1] for it in items if it[0] == 'c'] + [lo, hi]
+        sfx = [t[1] for t in tail]
+        subj = [[]]
+        for m in members:
+            subj += [[m] + sfx, [m], [lo, m] + sfx, [0x7A, m] + sfx, [m, m] + sfx, [0x20, m] + sfx, [m] + sfx + [m] + sfx]
+        subj += [[0x7A], sfx, [0x78] + sfx]
+        pat = B.print_re(e)
+        groups.append({"kind": "xp-firstchar", "pat": pat, "opts": "", "subj": subj, "expr": e, "deco": [], "plain": True,
+                       "ngroups": count_groups(pat)})
+    for g in groups:
+        if "fc_lost" not in g:
+            g["fc_lost"] = fc_analysis(g["expr"])[1] if g.get("expr") is not None else False
     return groups
 
 
@@ -259,9 +365,26 @@ def evaluate(g, tagged, answers):
         return bad, None
     fF, fH, fFH = (split_res(A[t])[0] for t in ("f+F", "f+H", "f+FH"))
     if f == fF and fH == fFH and f != fH:
-        # only the head-character optimisation (switched off by H) changes the result: class of F33
-        k = next(i for i, (p, q) in enumerate(zip(fH, f)) if p != q)
-        bad.append(("F33-headchar", "option H changes the result of subject #%d: %s vs %s" % (k, fH[k], f[k]), Ln["f+H"]))
+        # only the head-character optimisation (switched off by H) changes the result.  Known finding F33 covers exactly:
+        # (b) the match has to start on a supplementary character, (a) the first-character analysis discarded a '.'
+        # (fc_lost, see fc_analysis).  Every other H-dependent answer is a violation.
+        for k, (p, q) in enumerate(zip(fH, f)):
+            if p == q:
+                continue
+            why = None
+            if p[:1] == "1" and k < len(g["subj"]):
+                a0 = int(p[2:].split(",")[0].split("_")[0])
+                ch = char_at_unit(g["subj"][k], a0)
+                if ch is not None and ch >= 0x10000:
+                    why = "F33-headchar"
+            if why is None and g.get("fc_lost") and p[:1] == "1":
+                why = "F33-headchar"
+            if why is None:
+                bad.append(("O1-options", "option H changes the result of subject #%d: %s vs %s (not one of the F33 classes)"
+                            % (k, p, q), Ln["f+H"]))
+                break
+            if not any(b[0] == "F33-headchar" for b in bad):
+                bad.append(("F33-headchar", "option H changes the result of subject #%d: %s vs %s" % (k, p, q), Ln["f+H"]))
     else:
         for t, x in (("f+F", fF), ("f+H", fH), ("f+FH", fFH)):
             if x != f:
